@@ -540,13 +540,6 @@ class Representation(ObjectWithFields):
 
         mod_segment, origin_time, _ = self.calculate_segment_from_timecode(
             timecode, segment_time is None)
-        if segment_time is not None:
-            # number the segments consecutively, also when their durations vary.
-            # (segment_time // segment_duration repeats or skips numbers then)
-            ref_duration_tc = timing.stream_reference.media_duration_using_timescale(
-                self.timescale)
-            segment_num = int(
-                (origin_time // ref_duration_tc) * self.num_media_segments + mod_segment - 1)
         logging.debug('segment=%d time=%d mod_segment=%d origin_time=%d',
                       segment_num, timecode, mod_segment, origin_time)
         return SegmentNumberAndTime(segment_num, mod_segment, origin_time)
